@@ -43,6 +43,18 @@ CHECKS: dict[str, tuple[str, str, str, str]] = {
         " deviation is still a violation.",
         "DESIGN.md §3 C05",
     ),
+    "C17": (
+        "effect-order tabulation + constant agreement + automata equivalence of (converter summary ∘ extracted transducer) vs DEP5 language",
+        "Decides the command's effect table (refusal before any effect; REUSE.toml written before dep5 is unlinked on"
+        " every path), agreement of the converter's constants with the reader's (precedence = AGGREGATE, TOML keys,"
+        " version, line splitting, paragraph order), and - for every legal dep5 glob over {a / * ? \\} up to length"
+        " 5 (quick) / 7 (thorough) and paths of any length - equality of the DEP5 glob language with the language"
+        " of the converted glob under the extracted REUSE.toml matcher. Equality of whole lint reports is not decided.",
+        "Trusted: ast, re._parser, stdlib re applied to the two folded converter constants, DEP5's documented glob"
+        " semantics for python-debian, sa/transducer.py, sa/relang.py. Known findings are recognised by equality"
+        " with a frozen defect model.",
+        "DESIGN.md §3 C17",
+    ),
 }
 
 PENDING_REASON = "check not implemented yet (build in progress; see DESIGN.md §7)"
